@@ -46,15 +46,24 @@ theorem createPayload_pinned (t : Target) (enc : JVal → String) (view : JVal) 
       simp only [Option.bind_some] at h
       exact pinned_prepareForApi t h (withOwner_pinned t hw (pinned_deepOverlay_forced v t))
 
+theorem patchView_pinned (t : Target) (expected live ref : JVal) (so r : Bool) {w : JVal}
+    (he : Pinned t expected) (h : patchView expected live ref so r = some w) : Pinned t w := by
+  unfold patchView at h
+  by_cases hc : (so && !r) = true
+  · simp only [hc, if_true] at h
+    exact withOwner_pinned t h he
+  · simp only [hc] at h
+    exact pinned_dropMetaKey t h (by decide) (by decide) he
+
 theorem patchPayload_pinned (t : Target) (enc : JVal → String) (expected live ref : JVal) (so r : Bool) {p : JVal}
     (he : Pinned t expected) (h : patchPayload enc expected live ref so r = some p) : Pinned t p := by
   unfold patchPayload at h
-  cases hw : withOwner (so && !r) live ref expected with
+  cases hw : patchView expected live ref so r with
   | none => rw [hw] at h; simp at h
   | some w =>
     rw [hw] at h
     simp only [Option.bind_some] at h
-    exact pinned_prepareForApi t h (withOwner_pinned t hw he)
+    exact pinned_prepareForApi t h (patchView_pinned t expected live ref so r he hw)
 
 /-! ## the POST -/
 
